@@ -27,7 +27,8 @@ def respond(fullname, beh, payload):
     if beh == 'by-payload':
         # first payload byte selects the behaviour, so one module can serve good and bad sections
         sel = {0x00: 'obj', 0x01: 'raise', 0x02: 'importerror', 0x03: 'none', 0x04: 'null', 0x05: 'empty',
-               0x06: 'list', 0x07: 'str', 0x08: 'nan', 0x09: 'overflow', 0x0A: 'deep', 0x0B: 'hugeint'}
+               0x06: 'list', 0x07: 'str', 0x08: 'nan', 0x09: 'overflow', 0x0A: 'deep', 0x0B: 'hugeint',
+               0x0C: 'blank', 0x0D: 'newline', 0x0E: 'nullnl', 0x0F: 'nullsp'}
         beh = sel.get(payload[0] if len(payload) else 0, 'obj')
     if beh == 'obj':
         return json.dumps({'Fixture': fullname.split('.')[-1], 'Payload': bytes(payload).hex()})
@@ -43,6 +44,15 @@ def respond(fullname, beh, payload):
         return 'null'
     if beh == 'empty':
         return ''
+    # "nothing" with white space around it (the empty output of an external tool, a JSON null followed by a line feed)
+    if beh == 'blank':
+        return ' '
+    if beh == 'newline':
+        return '\r\n'
+    if beh == 'nullnl':
+        return 'null\n'
+    if beh == 'nullsp':
+        return ' null '
     if beh == 'badjson':
         return '{not json'
     # text that Python's json.loads accepts but that cannot be printed again as (strict) JSON inside the PEL document
